@@ -350,6 +350,7 @@ pub fn pipeline_programs(seed: u64, family: &str, n: usize, emit: &mut dyn FnMut
             6 if r.chance(1, 4) => ("30000000,10,50,250,394,0".to_string(), crate::fam::idiom::repeated_motif_program(&mut r)),
             6 if r.chance(1, 2) => ("30000000,10,50,250,394,0".to_string(), crate::fam::idiom::mixed_lookalike_program(&mut r)),
             7 if r.chance(1, 3) => ("30000000,10,50,250,394,0".to_string(), crate::fam::idiom::hashed_literal_program(&mut r)),
+            7 if r.chance(1, 2) => ("30000000,10,50,250,394,0".to_string(), crate::fam::idiom::self_ref_program(&mut r)),
             8 if r.chance(1, 2) => ("30000000,10,50,250,394,0".to_string(), crate::fam::idiom::storage_free_program(&mut r)),
             8 => {
                 // random bytes
@@ -379,7 +380,14 @@ pub fn generate(seed: u64, n: usize, _tier: &str, emit: &mut dyn FnMut(String)) 
     emit(format!("natural 30000000,10,50,250,394,0 5f{}5f5500", "54".repeat(40)));
     emit(format!("natural 30000000,10,50,250,394,0 5f{}5f5500", "54".repeat(3000)));
     emit(format!("natural 30000000,10,50,250,394,0 5f54{}5f5500", "6001556001545f555f54".repeat(2400)));
-    pipeline_programs(seed, "pipeline", n, &mut |cfg, prog| emit(format!("natural {cfg} {}", util::bytes_to_hex(&prog))));
+    // three quarters under the hooks' deterministic `sorted` order (compared with the model), the
+    // rest under the natural hash order of the process (oracles only)
+    let mut i = 0usize;
+    pipeline_programs(seed, "pipeline", n, &mut |cfg, prog| {
+        i += 1;
+        let order = if i % 4 == 0 { "natural" } else { "sorted" };
+        emit(format!("{order} {cfg} {}", util::bytes_to_hex(&prog)))
+    });
 }
 
 pub fn generate_orders(seed: u64, n: usize, _tier: &str, emit: &mut dyn FnMut(String)) {
